@@ -305,7 +305,8 @@ def run_batches(rep, wd, binary, inputs, clauses, prop, label, keep_samples=True
 
 
 def classify(rep, prop, payload, what):
-    names = set(c for c, _ in payload["violated"])
+    """known_findings.json entry {"match": {"clauses": [...], "files": [...] (optional)}} -> KNOWN-FINDING, else VIOLATION"""
+    names = set(c if isinstance(c, str) else c[0] for c in payload["violated"])
     for f in vlib.known_findings(prop):
         m = f.get("match", {})
         if "clauses" in m and names <= set(m["clauses"]) and \
